@@ -1046,6 +1046,29 @@ static void select_union_member(Initializer *init, Member *mem) {
   init->mem = mem;
 }
 
+// When set, designation() initializes the designated subobject only
+// and does not go on with the positional initializers that follow it.
+static bool designation_only;
+
+static void designation(Token **rest, Token *tok, Initializer *init);
+
+// Apply the rest of a designation to the elements [begin, end] of an
+// array. Every element gets the designated value, but the items that
+// follow continue after the last element only (C11 6.7.9p17; a range
+// is a GNU extension), so all other elements stop at the designated
+// subobject. Returns the token after what the last element consumed.
+static Token *designation_range(Token *tok, Initializer *init, int begin, int end) {
+  Token *tok2 = tok;
+  for (int i = begin; i <= end; i++) {
+    bool saved = designation_only;
+    if (i < end)
+      designation_only = true;
+    designation(&tok2, tok, init->children[i]);
+    designation_only = saved;
+  }
+  return tok2;
+}
+
 // designation = ("[" const-expr "]" | "." ident)* "="? initializer
 static void designation(Token **rest, Token *tok, Initializer *init) {
   if (equal(tok, "[")) {
@@ -1055,9 +1078,11 @@ static void designation(Token **rest, Token *tok, Initializer *init) {
     int begin, end;
     array_designator(&tok, tok, init->ty, &begin, &end);
 
-    Token *tok2;
-    for (int i = begin; i <= end; i++)
-      designation(&tok2, tok, init->children[i]);
+    Token *tok2 = designation_range(tok, init, begin, end);
+    if (designation_only) {
+      *rest = tok2;
+      return;
+    }
     array_initializer2(rest, tok2, init, end + 1);
     return;
   }
@@ -1066,6 +1091,10 @@ static void designation(Token **rest, Token *tok, Initializer *init) {
     Member *mem = struct_designator(&tok, tok, init->ty);
     designation(&tok, tok, init->children[mem->idx]);
     init->expr = NULL;
+    if (designation_only) {
+      *rest = tok;
+      return;
+    }
     struct_initializer2(rest, tok, init, skip_unnamed_bitfields(mem->next));
     return;
   }
@@ -1082,7 +1111,12 @@ static void designation(Token **rest, Token *tok, Initializer *init) {
 
   if (equal(tok, "="))
     tok = tok->next;
+
+  // The initializer of the designated subobject is complete in itself.
+  bool saved = designation_only;
+  designation_only = false;
   initializer2(rest, tok, init);
+  designation_only = saved;
 }
 
 // An array length can be omitted if an array has an initializer
@@ -1140,10 +1174,7 @@ static void array_initializer1(Token **rest, Token *tok, Initializer *init) {
       int begin, end;
       array_designator(&tok, tok, init->ty, &begin, &end);
 
-      Token *tok2;
-      for (int j = begin; j <= end; j++)
-        designation(&tok2, tok, init->children[j]);
-      tok = tok2;
+      tok = designation_range(tok, init, begin, end);
       i = end;
       continue;
     }
